@@ -10,7 +10,8 @@ META = dict(
          "messages up to 100 bytes in the thorough tier) is delivered to a fresh ioflo Requestant or Respondent with parse() called after "
          "each receive, as the service loops do, and with idle parse() calls (no new bytes) between two receives as a further environment choice "
          "(quick: at most one gap with one idle pass; thorough: 0-2 per gap).  Parsed start line, headers, body, trailers and the unconsumed remainder must equal the "
-         "generator's ground truth and the one-piece parse.  States = (message, split, idle passes) schedules, transitions = parse() steps.",
+         "generator's ground truth and the one-piece parse.  A dozen messages above 64 KiB (large bodies, a 70 000-byte chunk, a small message in "
+         "front of a large one) are delivered whole, in two pieces at a handful of cut points and in 8 KiB pieces with the same oracle.  States = (message, split, idle passes) schedules, transitions = parse() steps.",
     note="Bounded by message set and piece count (<=3 / <=4): a defect needing four or more specific cut points in one long message, or "
          "a message feature outside the generated set (obs-fold, duplicate header names, mixed LF/CRLF heads), is out of reach. "
          "LF-only heads are included because the parsers list LF as an accepted line end; they are never mixed with CRLF.",
@@ -286,7 +287,103 @@ def diff_obs(a, b):
     return None
 
 
+# --------------------------------------------------------------------------- large messages
+
+def _fill(n, seed):
+    """n deterministic bytes with line enders sprinkled in."""
+    unit = (b"%s-0123456789abcdefghijklmnopqrstuvwxyz\r\n" % seed) + b"x" * 23 + b"\n" + b"y" * 17 + b"\r"
+    return (unit * (n // len(unit) + 1))[:n]
+
+
+def large_messages():
+    """A dozen messages above the 64 KiB line limit (MAX_LINE_SIZE only limits a LINE, not a message)."""
+    V11, V10 = (1, 1), (1, 0)
+    host, srv = H("Host", "example.com"), H("Server", "s")
+    d = "%x"
+    small_req = b"GET /next HTTP/1.1\r\nHost: example.com\r\n\r\n"
+    small_rsp = b"HTTP/1.1 200 OK\r\nContent-Length: 2\r\n\r\nok"
+    big_req = b"POST /big HTTP/1.1\r\nHost: example.com\r\nContent-Length: 70000\r\n\r\n" + _fill(70000, b"q")
+    big_rsp = b"HTTP/1.1 200 OK\r\nContent-Length: 70000\r\n\r\n" + _fill(70000, b"r")
+    ms = []
+    A = ms.append
+    A(make("large-req-len-70000", "req", ("POST", "/l", V11), [host], ("length", _fill(70000, b"a")), tail=small_req))
+    A(make("large-req-len-150000", "req", ("PUT", "/l", V11), [host], ("length", _fill(150000, b"b")), tail=small_req))
+    A(make("large-rsp-len-70000", "rsp", (V11, 200, "OK"), [srv], ("length", _fill(70000, b"c")), tail=small_rsp))
+    A(make("large-rsp-len-150000", "rsp", (V11, 200, "OK"), [srv], ("length", _fill(150000, b"d")), tail=small_rsp))
+    A(make("large-req-chunked-70000+", "req", ("POST", "/c", V11), [host],
+           ("chunked", [(_fill(70000, b"e"), "", d), (b"abc", "", d), (_fill(9000, b"f"), "", d)], "", [H("X-T", "v"), H("X-U", "w")]),
+           tail=small_req))
+    A(make("large-rsp-chunked-70000+", "rsp", (V11, 200, "OK"), [srv],
+           ("chunked", [(_fill(70000, b"g"), "", d), (b"abc", "", d), (_fill(9000, b"h"), "", d)], "", [H("X-T", "v")]),
+           tail=small_rsp))
+    A(make("large-rsp-chunked-many", "rsp", (V11, 200, "OK"), [srv],
+           ("chunked", [(_fill(30000, b"i"), "", d)] * 5, "", []), tail=small_rsp))
+    A(make("large-rsp-close-150000", "rsp", (V10, 200, "OK"), [srv], ("close", _fill(150000, b"j"))))
+    A(make("small-req-before-large", "req", ("GET", "/s", V11), [host], tail=big_req))
+    A(make("small-rsp-before-large", "rsp", (V11, 200, "OK"), [srv], ("length", b"hi"), tail=big_rsp))
+    A(make("small-req-chunked-before-large", "req", ("POST", "/s", V11), [host],
+           ("chunked", [(b"abc", "", d)], "", [H("X-T", "v")]), tail=big_req))
+    A(make("small-rsp-chunked-before-large", "rsp", (V11, 200, "OK"), [srv],
+           ("chunked", [(b"abc", "", d)], "", [H("X-T", "v")]), tail=big_rsp))
+    return ms
+
+
+def large_deliveries(m):
+    """(description, pieces): whole, two pieces at a handful of cut points, 8 KiB pieces, 60000-byte pieces."""
+    wire = m["wire"]
+    n, ml = len(wire), m["msglen"]
+    head = wire.index(b"\r\n\r\n") + 4 if b"\r\n\r\n" in wire else ml
+    out = [("whole", [wire])]
+    cuts = sorted(set(c for c in (head - 2, head, head + 1, (head + ml) // 2, 65536, 65537, ml - 7, ml - 2, ml - 1, ml, ml + 1)
+                      if 0 < c < n))
+    for c in cuts:
+        out.append(("cut@%d" % c, [wire[:c], wire[c:]]))
+    for size in (8192, 60000):
+        out.append(("%d-byte pieces" % size, [wire[i:i + size] for i in range(0, n, size)]))
+    return out
+
+
+def short(v, limit=160):
+    r = repr(v)
+    return r if len(r) <= limit else r[:limit] + "...(%d chars)" % len(r)
+
+
+def work_large(idx):
+    core.use_repo()
+    m = large_messages()[idx]
+    part = core.Part()
+    parser = "Requestant" if m["kind"] == "req" else "Respondent"
+    whole = None
+    for desc, pieces in large_deliveries(m):
+        obs, steps = execute(m, pieces)
+        part.states += 1
+        part.transitions += steps
+        part.traces += 1
+        part.evaluations += 1
+        part.nontrivial((m["label"], desc))
+        if whole is None:
+            whole = obs
+        dt = diff_truth(obs, m["truth"])
+        part.outcome("%s:large:%s:%s" % (m["kind"], m["framing"], obs["outcome"] + (":" + obs["exc"] if "exc" in obs else "")))
+        replay = dict(parser=parser, message=m["label"], bytes=len(m["wire"]), message_bytes=m["msglen"], delivery=desc,
+                      piece_sizes=[len(p) for p in pieces], close_after=m["close"], method=m["method"],
+                      how="messages are built by checks/c29.py large_messages(); body filler _fill(n, seed)",
+                      error=obs.get("error"), outcome=obs["outcome"])
+        if dt is not None:
+            part.violation("%s|large-vs-truth|%s" % (parser, dt), "%s %s" % (m["label"], desc),
+                           "%s parsing %s (%d bytes) delivered %s: %s differs from the message content (got %s%s)"
+                           % (parser, m["label"], m["msglen"], desc, dt, short(obs.get(dt, obs.get("detail", obs["outcome"]))),
+                              ", error %r" % obs.get("error") if obs.get("error") else ""), replay)
+        elif diff_obs(obs, whole) is not None:
+            part.violation("%s|large-split-vs-whole|%s" % (parser, diff_obs(obs, whole)), "%s %s" % (m["label"], desc),
+                           "%s gives a different result for %s delivered %s than delivered whole" % (parser, m["label"], desc), replay)
+    part.sample(dict(message=m["label"], bytes=len(m["wire"]), deliveries=[d for d, p in large_deliveries(m)]))
+    return part
+
+
 def work(arg):
+    if arg[0] == "large":
+        return work_large(arg[1])
     idx, k = arg
     core.use_repo()
     m = messages()[idx]
@@ -360,12 +457,13 @@ def run():
         items.append((i, k))
     # biggest first for balance; results are merged in message order
     order = sorted(range(len(items)), key=lambda i: -split.count_splits(len(ms[i]["wire"]), items[i][1]))
-    res = core.pmap(work, [items[i] for i in order])
+    nlarge = len(large_messages())
+    res = core.pmap(work, [items[i] for i in order] + [("large", j) for j in range(nlarge)])
     parts = [None] * len(items)
     for pos, i in enumerate(order):
         parts[i] = res[pos]
-    ck.merge(parts)
-    ck.coverage_extra = dict(messages=len(ms), max_message_bytes=max(len(m["wire"]) for m in ms),
+    ck.merge(parts + res[len(items):])
+    ck.coverage_extra = dict(large_messages=nlarge, messages=len(ms), max_message_bytes=max(len(m["wire"]) for m in ms),
                              pieces_bound="3" if core.TIER == "quick" else "3 (4 for messages <= 100 bytes)")
     ck.assumptions = [
         "ground truth: header value = text after the colon with optional blanks (SP/HTAB) removed (RFC 7230 3.2); names case-insensitive; "
@@ -377,6 +475,10 @@ def run():
         "chunk-extension parameters are compared between split and whole parse only (the statement lists start line, headers, body, trailers)",
         "a parse() call that does not return within 5 s, and again not within 20 s when the execution is repeated, is reported as 'hangs' "
         "(an execution normally takes well under a millisecond)",
+        "large-message family: MAX_LINE_SIZE bounds a line, not a message; 12 messages of 70 000 - 150 000 bytes (fixed length, one 70 000 "
+        "byte chunk + more chunks + trailers, read-until-close, a small message followed by a 70 000 byte one) are delivered whole, in two "
+        "pieces at ~10 cut points (around the head end, mid body, at 65536/65537, around the message end) and in 8192- and 60000-byte pieces; "
+        "same ground-truth oracle",
         "read-until-close responses: peer close is signalled with Respondent.close() after the last receive",
         "'its bytes' = the message's own bytes: the parse must be complete once the receive carrying the message's last byte has been "
         "parsed (field 'prompt'), not only after bytes of the next message arrive",
